@@ -1,14 +1,20 @@
-"""Per-property configuration for ./check (tags that make a case non-trivial, the
-counting rule in words, assumptions, pre-hooks that regenerate kernels/facts)."""
+"""Per-property configuration for ./check: each lib/props/Cxx.py defines CONF, a dict with
+  interesting : list of tags, one of which makes a case non-trivial
+  rule        : how cases are generated / counted, in words
+  assumptions, trusted_base, explanation : copied into the evidence
+  shrink_keep_first : number of leading ops the shrinker never removes
+  allowed_axioms : stdlib axioms the theorems may depend on (named in DESIGN.md section 6)
+  pre         : list of hooks f(root, repo, work, harness_exe) -> (ok, message, extra_facts)
+                run before the proofs are built (kernel regeneration go2v, source facts)
+  model_optional : True when some cases have no model output by design
+"""
+import glob, os, importlib.util
 
 PROPS = {}
-
-PROPS['C18'] = {
-    'interesting': ['pre-growth', 'app-growth', 'clear-then-reuse', 'write-through-old-window'],
-    'rule': 'Op sequences over new/prepend/append/clear/push/write-through-window: exhaustive over 8 small ops to depth 4 (5 thorough) for 3 hint pairs, plus seeded random sequences (depth<=40 quick, <=200 thorough) over sizes {0,1,2,3,7,8,64,1500,70000} and hints {0,1,8,4096}; after every op Bytes(), returned window length, Layers() and panic flag are compared with the model, and the tape oracle checks written cells on the implementation.',
-    'shrink_keep_first': 1,
-    'assumptions': ['Go slice/append/copy/make semantics as modelled (make zeroes new arrays)',
-                    'Go int modelled as unbounded nat (sizes < 2^62)'],
-    'trusted_base': ['model: coq/Model/C18Model.v is a hand transcription of writer.go:110-218 (serializeBuffer, SerializeLayers)'],
-    'explanation': 'C18_refines proves, for every op sequence and size hints, that the modelled buffer refines the two-ended tape; the correspondence run ties the model to writer.go.',
-}
+_d = os.path.join(os.path.dirname(os.path.abspath(__file__)), 'props')
+for _f in sorted(glob.glob(os.path.join(_d, 'C*.py'))):
+    _n = os.path.basename(_f)[:-3]
+    _s = importlib.util.spec_from_file_location('props_' + _n, _f)
+    _m = importlib.util.module_from_spec(_s)
+    _s.loader.exec_module(_m)
+    PROPS[_n] = _m.CONF
